@@ -48,7 +48,12 @@ class BoxCommand(Command):
     def parse(self, tex):
         inEnv = MathShift.envStack(self.ownerDocument)
         inEnv.append(None)
-        Command.parse(self, tex)
+        # The content of a box is text, even inside mathematics
+        self.ownerDocument.context.push(self)
+        try:
+            Command.parse(self, tex)
+        finally:
+            self.ownerDocument.context.pop(self)
         inEnv.pop()
         return self.attributes
 
